@@ -238,6 +238,24 @@ def run_property(prop, tier, seed):
             violations.append(('replay', {'obligation': 'replay:' + ' '.join(k['replay']['args']), 'kind': 'replay', 'rendered': 'expected %r, recorded defect %r, observed %r' % (
                 k['replay']['expected_output'], k['replay']['defective_output'], out), 'spans': [],
                 'witness': {'confirmed_on_real_code': True, 'input': k['replay']['args'], 'observed': out, 'replay': {'driver': k['replay']['driver'], 'args': k['replay']['args']}}}))
+    # ---- bounded stand-ins (labelled bounded, never counted as proved): functions outside the verifier's reach
+    bounded_info = []
+    for (n, m) in serving:
+        for b in getattr(m, 'BOUNDED', {}).get(prop, []):
+            from vf import replaydrv
+            rr = replaydrv.run(b['driver'], b.get('args', []), timeout=600)
+            if not rr.get('ok'):
+                undecided.append('bounded stand-in %s could not run: %s' % (b['name'], rr.get('error')))
+                continue
+            out = rr['stdout']
+            mm = re.search(r'cases=(\d+) failures=(\d+)', out)
+            fails = [l[5:] for l in out.splitlines() if l.startswith('FAIL ')]
+            bounded_info.append({'name': b['name'], 'bounded': True, 'bound': b['bound'], 'cases': int(mm.group(1)) if mm else 0, 'failures': len(fails), 'functions': b.get('functions')})
+            if not mm:
+                undecided.append('bounded stand-in %s produced no summary' % b['name'])
+            for fl in fails:
+                violations.append(('bounded', {'obligation': 'bounded:%s' % b['name'], 'kind': 'bounded-check', 'rendered': fl, 'spans': [],
+                                               'witness': {'confirmed_on_real_code': True, 'input': fl, 'replay': {'driver': b['driver'], 'args': b.get('args', [])}}}))
     wall = time.time() - t0
     # ---- report
     for nmsg in notes:
@@ -291,6 +309,7 @@ def run_property(prop, tier, seed):
             'known_findings_hit': [k.get('what') for (k, f) in known_hits],
             'undecided': undecided,
             'thorough': extra_info,
+            'bounded_stand_ins': bounded_info,
         },
         'assumptions': sorted(set([x for (n, m) in serving for x in getattr(m, 'ASSUMPTIONS', [])])),
         'wall_s': round(wall, 2),
